@@ -62,10 +62,12 @@ def run(ctx):
     n_pkg = 7 if ctx.quick else 120
     for ip in range(n_pkg):
         n_m = int(rng.integers(1, 9))
-        n_ap = int(rng.integers(1, 6))
+        # the classes every run must contain are laid out by index (shard, package), the rest is drawn
+        slot = (ip + 3 * ctx.shard) % 7
+        n_ap = 1 if slot == 0 else (int(rng.integers(2, 6)) if slot in (1, 2) else int(rng.integers(1, 6)))
         n_w = int(rng.choice([6, 15, 40]))
-        f32 = bool(rng.random() < 0.3)
-        r_ = rng.random()
+        f32 = slot == 3 or (slot > 4 and bool(rng.random() < 0.3))
+        r_ = 0.9 if slot == 4 else rng.random()
         if r_ < 0.5:
             names = tricky_names(rng, n_m)
         elif r_ < 0.75:
@@ -91,12 +93,14 @@ def run(ctx):
         t1 = pkg.Truth(truth.names, truth.wav, truth.flux, truth.err, truth.apertures, truth.params, nu=truth1_nu)
         # the apertures of the SEDs may be tabulated in any length unit (the twins need not use the same one)
         apu1, apu2 = [str(x_) for x_ in rng.choice(['AU', 'pc', 'cm'], 2)] if (n_ap > 1 and not f32) else ('AU', 'AU')
+        if slot == 2:
+            apu1, apu2 = 'pc', 'cm'
         if apu1 != 'AU' or apu2 != 'AU':
             ctx.regime('apertures:not-in-AU')
         pkg.build_v1(d1, t1, table_order=order, desc=desc, gz=gz, length_subdir=lsub, fmt='E' if f32 else 'D',
                      param_gz=bool(rng.random() < 0.3), pad_names=bool(rng.random() < 0.3), ap_unit=apu1)
         cdesc = bool(rng.random() < 0.5)
-        cunit = 'mJy' if f32 else str(rng.choice(['mJy', 'Jy', 'uJy']))
+        cunit = 'mJy' if f32 else ('Jy' if slot == 1 else str(rng.choice(['mJy', 'Jy', 'uJy'])))
         pkg.build_v2(d2, truth, descending_wav=cdesc, dtype='f4' if f32 else 'f8', unit=cunit, ap_unit=apu2)
         ctx.regime('cube-unit:' + cunit)
         ctx.regime('cube:desc' if cdesc else 'cube:asc')
